@@ -18,7 +18,7 @@ RULE = ('Hypothesis-generated netlists x stimuli x m in {2,4,8} x {c_reuse} x {s
         'value an own line-level evaluator predicts; (b) a callback that does nothing leaves all results equal to inject_cb=None; (c) a callback '
         'that overwrites line L gives (also on a simulator restored from a pickle or a deepcopy), at all outputs and state elements, the results of the own evaluator with L cut and driven by the replacement '
         'values (also through cycle()). non-trivial: L has an output in its fan-out and one outside it and the replacement differs from the natural '
-        'value in some lane; distinct by SHA-1 of the case. One case in 25 has 100-150 gates (>= 256 lines).')
+        'value in some lane; distinct by SHA-1 of the case. One case in 25 has 100-150 gates (>= 256 lines). Callback form 4 returns a changed copy of the array it was given (the return value means nothing).')
 ASSUMPTIONS = ['callback identity accepted as a Line object or a plain line index (operator.index)',
                'line-level reference evaluator in this file walks the Circuit built through the public API']
 
@@ -36,7 +36,7 @@ def cases(draw, tier):
     repl = draw(st.lists(st.sampled_from(alpha), min_size=sims, max_size=sims))
     return dict(nl=nl, m=m, sims=sims, stim=stim, repl=repl, target=draw(st.integers(0, 10000)),
                 c_reuse=draw(st.booleans()), strip_forks=draw(st.booleans()), cycles=draw(st.sampled_from([0, 0, 1, 2])),
-                copied=draw(st.sampled_from([0, 0, 0, 1, 2])), cbform=draw(st.sampled_from([0, 0, 1, 2, 3])))
+                copied=draw(st.sampled_from([0, 0, 0, 1, 2])), cbform=draw(st.sampled_from([0, 0, 1, 2, 3, 4])))
 
 
 class LineEval:
@@ -160,6 +160,8 @@ def prop(case):
             return Holder().method
         if form == 2:
             return functools.partial(lambda tag, line, arr: f(line, arr), 'tag')
+        if form == 4:         # a callback that hands something back (a changed copy of what it saw): the return value means nothing
+            return lambda line, arr: (f(line, arr), ~arr)[1]
         if form == 3:
             class Log(list):
                 def __call__(self, line, arr):
@@ -268,7 +270,7 @@ def prop(case):
     if cycles: labels.append('through_cycle')
     if len(b.c.lines) >= 256: labels.append('>=256_lines')
     if case.get('copied'): labels.append('simulator_pickled_or_copied')
-    if case.get('cbform'): labels.append(['', 'callback_bound_method', 'callback_partial', 'callback_callable_container'][case['cbform']])
+    if case.get('cbform'): labels.append(['', 'callback_bound_method', 'callback_partial', 'callback_callable_container', 'callback_returns_an_array'][case['cbform']])
     if differs: labels.append('replacement_differs')
     if any(in_fo) and not all(in_fo): labels.append('target_partially_observable')
     return Obs(differs and any(in_fo) and not all(in_fo), labels, checks=len(calls) + len(outs))
